@@ -149,6 +149,7 @@ func cmdReplay(args []string) {
 	st := stats{ByOp: map[string]int{}}
 	var mu sync.Mutex
 	seen := map[string]bool{}
+	preloadTables(lines)
 	res := parallelMap(lines, func(i int, line []byte) []byte {
 		c, ok := cwf.MustParse(line).(Obj)
 		if !ok {
